@@ -52,8 +52,8 @@ type plan struct {
 	// threshold of valid partial reveals aggregates to exactly this value.
 	groupRandao eth2p0.BLSSignature
 
-	aggPlan  // the aggregation pipelines (aggkinds_test.go)
-	morePlan // proposer variants (builder/blinded, Deneb block contents), exits, builder registrations (morekinds_test.go)
+	aggPlan   // the aggregation pipelines (aggkinds_test.go)
+	morePlan  // proposer variants (builder/blinded, Deneb block contents), exits, builder registrations (morekinds_test.go)
 	bcastPlan // the real core/bcast behind the recorder; old-release nodes (realbcast_test.go)
 
 	mu       sync.Mutex
